@@ -34,6 +34,7 @@ class Profile:
 
     def __init__(self, **kw):
         self.min_types, self.max_types = 2, 6
+        self.p_crowd_big = 0.0           # share of the crowd scenarios whose crowd has 58..70 members
         self.p_proc_crowd = 0.0          # a scenario with 10..15 further Ordered user post-processors of pairwise different
         #                                  Order, all behind the built-in ones: more Ordered processors than sort.Slice sorts by insertion
         self.p_crowd = 0.02              # a scenario with one naming type instantiated 24..36 times: more singletons than any
@@ -197,6 +198,8 @@ def gen_scenario(rng, sid, pf):
             ninst = 2
         if t["naming"] and not t["proc"] and crowd and ti == crowd_type:
             ninst = rng.randint(24, 36)
+            if pf.p_crowd_big and rng.random() < pf.p_crowd_big:
+                ninst = rng.randint(58, 70)       # with the built-in components: more than 64 singletons
         for j in range(ninst):
             name = ""
             if t["naming"]:
